@@ -10,12 +10,15 @@ Open Scope Z_scope.
       Content-Length (input field 4) - a failed transmission, not invalid syntax, for which the property names no status
    3: a handler did not return after the client went away
    4: a handler panicked
-   5: the response is not well-formed for its protocol *)
+   5: the response is not well-formed for its protocol
+   7: (class 97) a gRPC-Web response whose only defect is a data frame that landed behind - or, so far, instead of - the
+      trailer: the abandoned Send of finding F33 (seen under load only) *)
 Definition prop_c17 (input impl : val) : option Z :=
   let class := as_Z (nthv 0 impl) in
   let status := as_Z (nthv 1 impl) in
   if Z.eqb class 99 then Some 4
   else if Z.eqb class 98 then Some 3
+  else if Z.eqb class 97 then Some 7
   else if negb (as_bool (nthv 2 impl)) then Some 5
   else if Z.eqb (as_Z (nthv 0 input)) 1 && (500 <=? status) && negb (Z.eqb status 501) && negb (as_bool (nthv 4 input)) then Some 2
   else None.
